@@ -155,6 +155,16 @@ SCHEMAS = {
                    A('R2', 'C2', ['PB', 'PA'], 'MC', 'P', ['B', 'A'], '1C')],
         'uniques': {'P': [U('I1', 'A', 'B')], 'C1': [U('I1', 'Id')], 'C2': [U('I1', 'Id')]},
     },
+    # association numbers that are prefixes of one another (R1, R12, R121): a restriction to one number is exact
+    'prefix_rels': {
+        'classes': ['P', 'C1', 'C2', 'C3'],
+        'attrs': {'P': [at('Id', ID)], 'C1': [at('Id', ID), at('P_Id', ID)], 'C2': [at('Id', ID), at('P_Id', ID)],
+                  'C3': [at('Id', ID), at('P_Id', ID)]},
+        'assocs': [A('R1', 'C1', ['P_Id'], 'MC', 'P', ['Id'], '1C'),
+                   A('R12', 'C2', ['P_Id'], 'M', 'P', ['Id'], '1'),
+                   A('R121', 'C3', ['P_Id'], '1C', 'P', ['Id'], '1')],
+        'uniques': {'P': [U('I1', 'Id')], 'C1': [U('I1', 'Id')], 'C2': [U('I1', 'Id')], 'C3': [U('I1', 'Id')]},
+    },
     # phrases on one end only of a non-reflexive association
     'phrase_ends': {
         'classes': ['P', 'D'],
